@@ -10,6 +10,7 @@ mod cli;
 mod ws;
 mod c10;
 mod c12cli;
+mod c13;
 mod factcheck;
 mod props;
 mod tycmp;
@@ -105,6 +106,7 @@ fn table(prop: &str) -> Option<(RunFn, ReplayFn)> {
         "C10" => (c10::run, c10::replay),
         "C11" => (props::c11_run, props::c11_replay),
         "C12" => (props::c12_run, props::c12_replay),
+        "C13" => (c13::run, c13::replay),
         "C15" => (c15::run, c15::replay),
         "C16" => (c16::run, c16::replay),
         "C17" => (c17::run, c17::replay),
